@@ -94,6 +94,8 @@ def cases(draw):
     case = {"cmd": cmd, "select": draw(st.sampled_from(["pattern", "language", "grammar"])),
             "ignore_case": draw(st.booleans()), "files": draw(st.lists(files(), min_size=1, max_size=3))}
     if cmd == "check":
+        # with languages deduced from the file names one command line may mix files of two registered languages
+        case["langs"] = [draw(st.sampled_from(["a", "a", "b"])) for _ in case["files"]]
         return case
     given = {}
     for _ in range(draw(st.integers(0, 4))):
@@ -138,9 +140,9 @@ def strategy(tier):
     return cases()
 
 
-def file_text(f):
-    """(text, (line, col) of the defect or None)"""
-    kw = "ITEM" if f["bad"] == "upper" else "item"
+def file_text(f, word="item"):
+    """(text, (line, col) of the defect or None); `word` is the language's keyword ('item' / 'entry')"""
+    kw = word.upper() if f["bad"] == "upper" else word
     parts = []
     pos = None
     off = 0
@@ -196,9 +198,9 @@ def evaluate(case):
         paths, defects = [], []
         sel = case["select"]
         # which registered language a file belongs to (two languages only when the language is deduced from the name)
-        langs = [(lg if (sel == "pattern" and case["cmd"] == "generate") else "a") for lg in case.get("langs", ["a"] * len(case["files"]))]
+        langs = [(lg if sel == "pattern" else "a") for lg in case.get("langs", ["a"] * len(case["files"]))]
         for i, fd in enumerate(case["files"]):
-            text, pos = file_text(fd)
+            text, pos = file_text(fd, "item" if langs[i] == "a" else "entry")
             p = os.path.join(tmp, f"m{i}." + ("c30itm" if langs[i] == "a" else "c30b"))
             with open(p, "w", encoding="utf-8") as f:
                 f.write(text)
@@ -212,7 +214,16 @@ def evaluate(case):
             return mm_
 
         register_language(LanguageDesc("c30lang", pattern="*.c30itm", description="", metamodel=lang_mm))
-        register_language(LanguageDesc("c30langb", pattern="*.c30b", description="", metamodel=lang_mm))
+        gpath_b = os.path.join(tmp, "langb.tx")
+        with open(gpath_b, "w", encoding="utf-8") as f:
+            f.write(GRAMMAR.replace("'item'", "'entry'"))  # the second language spells its keyword differently
+
+        def lang_mm_b():
+            mm_ = metamodel_from_file(gpath_b)
+            mm_.model_param_defs.add("my_param", "a model parameter of this language")
+            return mm_
+
+        register_language(LanguageDesc("c30langb", pattern="*.c30b", description="", metamodel=lang_mm_b))
         icase = case["ignore_case"] and sel == "grammar"
         valid = []
         for fd in case["files"]:
@@ -309,7 +320,7 @@ def evaluate(case):
                 out.cls("declared:" + ("args_ok" if args_ok else "args_rejected"))
         out.cls(f"{case['cmd']}:{sel}")
         out.cls("exit_expected:%d" % exp_exit)
-        out.sample = {"argv": [a.replace(tmp, "<tmp>") for a in argv], "files": [file_text(f)[0] for f in case["files"]],
+        out.sample = {"argv": [a.replace(tmp, "<tmp>") for a in argv], "files": [file_text(f, "item" if langs[i] == "a" else "entry")[0] for i, f in enumerate(case["files"])],
                       "declared": case.get("declared")}
         cap = Capture()
         root = logging.getLogger()
